@@ -305,6 +305,59 @@ def run(facts, rep, tier):
                    "alternatives are tested for mutual exclusion only as %s: a non-adjacent overlapping pair lets an anyOf be treated as a oneOf, and in the untagged enum the first matching variant shadows the other (valid instances are rejected or lose members)" % ("neighbours (`%s`)" % chain[-40:] if adjacent else "produced by `%s`" % chain[-60:]), n.get("sp"))
     rep.floor("C02.D2", "applications of a binary schema predicate to elements of one slice", n_pair, 1)
 
+    # ------------------------------------------------------------ D1 a constant is one value
+    # `constant_string_value` answers "this schema admits exactly this string": it is what tags and variant names are read
+    # from. An `enum` is a constant only if it lists exactly one value.
+    n_c = 0
+    for h in c.user_fns():
+        if not h["fn"].endswith("constant_string_value"):
+            continue
+        cnc_ = Canon(c, h, 4)
+        for n, anc in walk(h["body"]):
+            if n.get("k") == "mcall" and n["name"] in ("first", "last", "get", "next", "pop", "into_iter", "iter") and "enum_values" in cnc_.r(n["recv"]) and n["name"] in ("first", "last", "get", "pop") or \
+                    (n.get("k") == "index" and "enum_values" in cnc_.r(n["e"])):
+                n_c += 1
+                gs = guards(anc, n)
+                conds = [g_[2] for g_ in gs if g_[0] == "arm" and g_[2]] + [g_[1] for g_ in gs if g_[0] == "if"]
+                ok = any(re.search(r"\.len\(\) Eq 1\b", x) for x in conds)
+                rep.ob("C02.D1", "constant-needs-single-value#%d" % n_c, ok, "an element of `enum` is read only under `len() == 1`" if ok else
+                       "`%s` reads an element of the schema's `enum` list without requiring the list to have exactly one value: a multi-valued enum is taken for a constant (its first value), so a tag / variant name is recognised where there is none and the other values are rejected" % src(n)[:50], n.get("sp"))
+    rep.floor("C02.D1", "reads of an enum list in the constant recogniser", n_c, 1)
+
+    # ------------------------------------------------------------ D3 the alternative dropped as "the null" admits only null
+    # `maybe_option` turns `oneOf/anyOf [T, null]` into Option<T> by removing the null alternative; an alternative that
+    # admits anything besides null (a `type: [string, null]` array) must not be removed, or its other values are rejected
+    n_null = 0
+    for h in c.user_fns():
+        if not h["fn"].endswith("maybe_option"):
+            continue
+        cn3 = Canon(c, h, 5)
+        for n, anc in walk(h["body"]):
+            if not (n.get("k") == "mcall" and n["name"] in ("filter", "partition", "position", "find", "any", "retain") and n.get("args")):
+                continue
+            for cl in n["args"]:
+                if cl.get("k") != "closure" or "InstanceType::Null" not in cn3.r(cl["body"]):
+                    continue
+                for m, _ in nodes(cl["body"], "match"):
+                    if m.get("src") != "normal":
+                        continue
+                    for a in m["arms"]:
+                        verdict = cn3.r(a["body"])
+                        if verdict in ("false",):
+                            continue
+                        test = " && ".join(x for x in ((cn3.r(a["guard"]) if a.get("guard") else ""), verdict if verdict != "true" else "") if x)
+                        pat = psrc(a["pat"])
+                        n_null += 1
+                        if "SingleOrVec::Single(" in pat and "SingleOrVec::Vec(" not in pat:
+                            ok = re.fullmatch(r"\(\S+~Single Eq InstanceType::Null\)", test) is not None
+                        elif "SingleOrVec::Vec(" in pat and "SingleOrVec::Single(" not in pat:
+                            ok = re.search(r"\.all\(\|\.\.\| \(elem<[^|]*> Eq InstanceType::Null\)\)", test) is not None and ".contains(" not in test and ".any(" not in test
+                        else:
+                            ok = False
+                        rep.ob("C02.D3", "null-alternative-is-exactly-null#%d" % n_null, ok, "an alternative is taken for `null` only under `%s`" % test[:90] if ok else
+                               "an alternative matching `%s` is taken for the `null` member of the union under `%s`: a subschema that admits other values as well (e.g. `type: [string, null]`) is dropped, the type collapses to Option<other>, and those values are rejected" % (pat[:70], test[:110]), a.get("sp") or m.get("sp"))
+    rep.floor("C02.D3", "tests for the null alternative of a union", n_null, 1)
+
     # ------------------------------------------------------------ W5b per-variant helpers
     from lib import PCanon, depends_on
     n_b = 0
